@@ -6,7 +6,7 @@ import ast
 
 from sa.core import AnalysisError, Report, loc, norm_src, enclosing_function
 from sa.paths import dotted, calls_in, call_name
-from rules.C13 import check_mpmath_tables
+from rules.C13 import check_mpmath_tables, NAMEKEY
 
 REL = "utils.py"
 SENTINEL = "UNSPECIFIED"
@@ -49,7 +49,8 @@ def run(repo, tier):
     r.rule("R15.3", "extra precision: __init__ stores the options backend_context applies; backend calls run inside backend_context", floor=5)
     r.rule("R15.5", "mpf2float's underflow/overflow results carry the sign: the negative arm is a float negative zero / negative infinity", floor=2)
     r.rule("R15.6", "mpf2float's underflow and overflow tests read the exponent and bit count of the value rounded to the target precision, on every path", floor=2)
-    r.rule("R15.4", "mpf2float reads IEEE-correct exponent tables and keys them by the flush flag the right way round", floor=13)
+    r.rule("R15.8", "mpf2float thresholds derived per format and flush flag from the range tests as they are (operator, table, offsets): infinity exactly from exp + bc = emax + 2, zero up to half the smallest subnormal (no flush) or exactly below the smallest normal (flush)", floor=9)
+    r.rule("R15.4", "mpf2float reads IEEE-correct exponent tables; zero is returned below a threshold, infinity above one", floor=13)
 
     n_res = 0
     files = [f for f in repo.py_files()]
@@ -203,13 +204,6 @@ def run(repo, tier):
     # ------------------------------------------------------------------ R15.4 tables + flush keyed exponent
     check_mpmath_tables(r, repo, rule="R15.4")
     mf = repo.func(REL, "mpf2float")
-    # the zero threshold: the conditional that chooses between the float_minexp and float_subexp tables
-    zsel = [x for x in ast.walk(mf) if isinstance(x, ast.IfExp) and "float_minexp" in norm_src(x) and "float_subexp" in norm_src(x)]
-    if len(zsel) != 1:
-        raise AnalysisError("mpf2float: the conditional `float_minexp[...] if flush_subnormals else float_subexp[...]` not found")
-    ie = zsel[0]
-    ok = norm_src(ie.test) == "flush_subnormals" and "float_minexp" in norm_src(ie.body) and "float_subexp" in norm_src(ie.orelse)
-    r.ob("R15.4", f"{REL}::mpf2float zero threshold", ok, f"`{norm_src(ie)}`: flushing must cut at float_minexp (smallest normal), otherwise at float_subexp", loc(REL, ie))
     # R15.5: returns under the two range tests
     rtests = check_range_tests_after_rounding(r, repo, mf)
     # the sign is the first component of the (sign, man, exp, bc) tuple of the mpf
@@ -251,6 +245,7 @@ def run(repo, tier):
     ok = "under:below" in kinds and "over:above" in kinds and all(k in ("under:below", "over:above") for k in kinds)
     r.ob("R15.4", f"{REL}::mpf2float range tests", ok, f"range tests are {sorted(v['text'] + ' (' + v['kind'] + ':' + v['dir'] + ')' for v in rtests.values())}: "
          "zero is returned below the zero threshold, infinity above float_maxexp", loc(REL, mf))
+    check_thresholds_derived(r, repo, mf, rtests)
     # ------------------------------------------------------------------ R15.7 wrapper caches
     # The numpy_with_* namespaces cache the vectorised wrapper they build with **self.params under a key: the key must determine
     # everything the wrapper is built from - the name and the whole of self.params - or a namespace with other options is handed
@@ -284,6 +279,159 @@ def run(repo, tier):
     if n_cache < 2:
         raise AnalysisError(f"only {n_cache} wrapper caches (_vfunc_cache stores) recognised in utils.py")
     return r
+
+
+class _RawField(Exception):
+    pass
+
+
+def check_thresholds_derived(r, repo, mf, rtests, rule="R15.8"):
+    """mpf2float's zero and infinity thresholds, derived per format and flush flag.  After rounding to p bits the value is
+    man * 2^exp with bit count bc, so |v| lies in [2^(E-1), 2^E) with E = exp + bc.  Each range test is brought to the form
+    `E + c  op  T` by following its operands along the path (local copies, the conditional that selects the table by the flush
+    flag - as an expression or as a statement -, the exponent tables evaluated for the format); that gives the largest E sent to
+    zero (zmax) and the smallest E sent to infinity (omin).  Required, with emin/emax/p of the format:
+      omin == emax + 2          (E = emax + 1 holds the finite values up to the largest; from 2^(emax+1) on it is an overflow)
+      no flush: emin - p <= zmax <= emin - p + 1   (everything below half the smallest subnormal is zero; no subnormal at or above
+                                                    the smallest one is lost)
+      flush:    zmax == emin                       (exactly the values below the smallest normal are flushed)"""
+    from sa.paths import enumerate_paths
+    from sa.defuse import last_def
+    from sa.consteval import ev
+    from rules.C13 import EMIN, EMAX, PREC
+
+    cls = repo.find(REL, "vectorize_with_mpmath")
+    TABLES = {}
+    for name in ("float_minexp", "float_subexp", "float_maxexp"):
+        tbl = ev(repo.module_assign(REL, name, container=cls))
+        if not isinstance(tbl, dict):
+            raise AnalysisError(f"vectorize_with_mpmath.{name} is not a constant table")
+        TABLES[name] = tbl
+    # names of the rounded exponent and bit count: 3rd and 4th target of the unpacking of _normalize(...)
+    fields = None
+    for st in ast.walk(mf):
+        if isinstance(st, ast.Assign) and isinstance(st.targets[0], ast.Tuple) and len(st.targets[0].elts) == 4 and isinstance(st.value, ast.Call) \
+                and (dotted(st.value.func) or "").endswith("_normalize") and all(isinstance(e, ast.Name) for e in st.targets[0].elts):
+            fields = [e.id for e in st.targets[0].elts]
+    if fields is None:
+        raise AnalysisError("mpf2float: `sign, man, exp, bc = _normalize(...)` not found")
+    EXP, BC = fields[2], fields[3]
+    flagname = next((a.arg for a in mf.args.args if a.arg == "flush_subnormals"), None)
+    if flagname is None:
+        raise AnalysisError("mpf2float: parameter flush_subnormals not found")
+    done = {}
+    skipped = set()
+    for path in enumerate_paths(mf, unroll=(0, 1), limit=20000):
+        evs = path.events
+        # flush flag values compatible with this path
+        flags = {False, True}
+        for e in evs:
+            if e.kind == "test":
+                t, pol = e.node, e.pol
+                while isinstance(t, ast.UnaryOp) and isinstance(t.op, ast.Not):
+                    t, pol = t.operand, not pol
+                if isinstance(t, ast.Name) and t.id == flagname:
+                    flags &= {pol}
+        for i, e in enumerate(evs):
+            if e.kind != "test" or id(e.node) not in rtests:
+                continue
+
+            def lin(x, at, flush, fmt, depth=0):
+                """linear form {EXP: a, BC: b, 1: c} of an integer expression, or raise"""
+                if depth > 12:
+                    raise AnalysisError("mpf2float: range test operand too deep")
+                if isinstance(x, ast.Constant) and isinstance(x.value, int) and not isinstance(x.value, bool):
+                    return {1: x.value}
+                if isinstance(x, ast.Name):
+                    if x.id in (EXP, BC):
+                        ld = last_def(x.id, evs, at)
+                        if ld is not None and isinstance(ld[1], ast.Call) and (dotted(ld[1].func) or "").endswith("_normalize"):
+                            return {x.id: 1}
+                        if ld is not None and isinstance(ld[1], ast.Attribute):
+                            raise _RawField()  # the test reads an unrounded field: R15.6 is the verdict on it
+                    ld = last_def(x.id, evs, at)
+                    if ld is None:
+                        raise AnalysisError(f"mpf2float: `{x.id}` in a range test is not locally defined")
+                    return lin(ld[1], ld[0], flush, fmt, depth + 1)
+                if isinstance(x, ast.IfExp):
+                    t, pol = x.test, True
+                    while isinstance(t, ast.UnaryOp) and isinstance(t.op, ast.Not):
+                        t, pol = t.operand, not pol
+                    if isinstance(t, ast.Name) and t.id == flagname:
+                        return lin(x.body if (flush == pol) else x.orelse, at, flush, fmt, depth + 1)
+                    raise AnalysisError(f"mpf2float: conditional `{norm_src(x)}` in a range test does not test the flush flag")
+                if isinstance(x, ast.Subscript) and isinstance(x.value, ast.Attribute) and x.value.attr in TABLES:
+                    return {1: TABLES[x.value.attr][fmt]}
+                if isinstance(x, ast.BinOp) and isinstance(x.op, (ast.Add, ast.Sub)):
+                    a, b = lin(x.left, at, flush, fmt, depth + 1), lin(x.right, at, flush, fmt, depth + 1)
+                    sgn = 1 if isinstance(x.op, ast.Add) else -1
+                    out = dict(a)
+                    for k, v in b.items():
+                        out[k] = out.get(k, 0) + sgn * v
+                    return out
+                if isinstance(x, ast.UnaryOp) and isinstance(x.op, ast.USub):
+                    return {k: -v for k, v in lin(x.operand, at, flush, fmt, depth + 1).items()}
+                raise AnalysisError(f"mpf2float: operand `{norm_src(x)}` of a range test is not understood")
+
+            for flush in sorted(flags):
+                for fmt, bits in NAMEKEY.items():
+                    key = (id(e.node), flush, fmt)
+                    try:
+                        L = lin(e.node.left, i, flush, fmt)
+                        R = lin(e.node.comparators[0], i, flush, fmt)
+                    except _RawField:
+                        skipped.add(id(e.node))
+                        continue
+                    d = dict(L)
+                    for k, v in R.items():
+                        d[k] = d.get(k, 0) - v
+                    a, b, c = d.get(EXP, 0), d.get(BC, 0), d.get(1, 0)
+                    if not (a == b and a in (1, -1)):
+                        raise AnalysisError(f"mpf2float: range test `{norm_src(e.node)}` does not compare exp + bc with a threshold")
+                    op = type(e.node.ops[0])
+                    if a == -1:  # -(E) + c op 0  <=>  E - c  op'  0
+                        c = -c
+                        op = {ast.Lt: ast.Gt, ast.LtE: ast.GtE, ast.Gt: ast.Lt, ast.GtE: ast.LtE}.get(op, op)
+                    # E + c op 0 when the test is true (the return under it is taken)
+                    if op is ast.Lt:
+                        bound = ("zmax", -c - 1)
+                    elif op is ast.LtE:
+                        bound = ("zmax", -c)
+                    elif op is ast.Gt:
+                        bound = ("omin", -c + 1)
+                    elif op is ast.GtE:
+                        bound = ("omin", -c)
+                    else:
+                        raise AnalysisError(f"mpf2float: range test `{norm_src(e.node)}` is not an ordering comparison")
+                    prev = done.get(key)
+                    if prev is not None and prev[0] != bound:
+                        raise AnalysisError(f"mpf2float: range test `{norm_src(e.node)}` has path-dependent thresholds")
+                    done[key] = (bound, e.node)
+    n = 0
+    for (nid, flush, fmt), ((what, val), node) in sorted(done.items(), key=lambda kv: (kv[0][2], kv[0][1], kv[1][0][0])):
+        bits = NAMEKEY[fmt]
+        emin, emax, pp = EMIN[bits], EMAX[bits], PREC[bits]
+        kind = rtests[nid]["kind"]
+        if what == "omin" and kind == "over":
+            ok = val == emax + 2
+            detail = (f"`{norm_src(node)}` returns infinity for exp + bc >= {val}; {fmt} values with exp + bc = {emax + 1} are the finite ones up to the largest, and everything "
+                      f"from exp + bc = {emax + 2} on is beyond it: " + ("finite values of the top binade become infinite" if val < emax + 2 else "values beyond the largest are handed to ldexp"))
+        elif what == "zmax" and kind == "under":
+            if flush:
+                ok = val == emin
+                detail = (f"`{norm_src(node)}` with flushing returns zero for exp + bc <= {val}; exactly the values below the smallest normal (exp + bc <= {emin}) are to be flushed: "
+                          + ("normal values are flushed to zero" if val > emin else "some subnormals survive the flush"))
+            else:
+                ok = emin - pp <= val <= emin - pp + 1
+                detail = (f"`{norm_src(node)}` returns zero for exp + bc <= {val}; below half the smallest subnormal is exp + bc <= {emin - pp}, the smallest subnormal itself has "
+                          f"exp + bc = {emin - pp + 2}: " + ("representable values are turned into zero" if val > emin - pp + 1 else "values below half the smallest subnormal are handed to ldexp"))
+        else:
+            ok, detail = False, f"`{norm_src(node)}` is a test in the wrong direction for its table"
+        n += 1
+        r.ob(rule, f"{REL}::mpf2float {fmt} flush={flush} {'overflow' if kind == 'over' else 'zero'} threshold", ok, detail, loc(REL, node),
+             sample=dict(rule=rule, format=fmt, flush=flush, bound=what, value=val))
+    if n < 9 and not skipped:
+        raise AnalysisError(f"mpf2float: only {n} (format, flush, threshold) combinations derived")
 
 
 def check_range_tests_after_rounding(r, repo, mf, rule="R15.6"):
